@@ -81,12 +81,35 @@ def model_to_py(m: z3.ModelRef) -> dict:
     return out
 
 
+SOLVER_MEM_MB = 3000
+
+
+def _limit_child_memory():
+    import resource
+    try:
+        resource.setrlimit(resource.RLIMIT_AS, ((SOLVER_MEM_MB + 1000) << 20, (SOLVER_MEM_MB + 1000) << 20))
+    except (ValueError, OSError):
+        pass
+
+
 def _z3_check(smt2: str, timeout_ms: int) -> tuple[str, dict, str]:
     ctx = z3.Context()
     s = z3.Solver(ctx=ctx)
     s.set('timeout', timeout_ms)
+    s.set('max_memory', SOLVER_MEM_MB)        # a goal that needs more is `unknown` (undecided), not a dead machine
     s.from_string(smt2)
-    r = s.check()
+    # the solver's own timeout / memory parameters are not honoured inside some string-theory loops: interrupt the
+    # context from a watchdog thread as well (the worker's address-space cap is the last resort)
+    import threading
+    dog = threading.Timer(timeout_ms / 1000.0 + 3.0, ctx.interrupt)
+    dog.daemon = True
+    dog.start()
+    try:
+        r = s.check()
+    except (z3.Z3Exception, MemoryError) as e:
+        return 'unknown', {}, f'z3: {e}'
+    finally:
+        dog.cancel()
     if r == z3.unsat:
         return 'unsat', {}, ''
     if r == z3.sat:
@@ -105,8 +128,8 @@ def _z3cli_check(smt2: str, timeout_ms: int) -> tuple[str, dict, str]:
         f.write(smt2)
         fname = f.name
     try:
-        p = subprocess.run([exe, f'-T:{max(1, timeout_ms // 1000)}', fname], capture_output=True, text=True,
-                           timeout=timeout_ms / 1000 + 5)
+        p = subprocess.run([exe, f'-T:{max(1, timeout_ms // 1000)}', f'-memory:{SOLVER_MEM_MB}', fname],
+                           capture_output=True, text=True, timeout=timeout_ms / 1000 + 5, preexec_fn=_limit_child_memory)
         first = (p.stdout.strip().splitlines() or [''])[0]
         if first == 'unsat':
             return 'unsat', {}, ''
@@ -128,7 +151,7 @@ def _cvc5_check(smt2: str, timeout_ms: int) -> tuple[str, dict, str]:
         fname = f.name
     try:
         args = [exe, f'--tlimit={timeout_ms}', '--strings-exp', fname]
-        p = subprocess.run(args, capture_output=True, text=True, timeout=timeout_ms / 1000 + 5)
+        p = subprocess.run(args, capture_output=True, text=True, timeout=timeout_ms / 1000 + 5, preexec_fn=_limit_child_memory)
         out = p.stdout.strip().splitlines()
         first = out[0] if out else ''
         if first in ('unsat', 'sat'):
@@ -146,7 +169,10 @@ def _work(job):
     # Staged: a short z3 attempt, then cvc5 (much stronger on strings/sequences), then z3 with the full budget.
     # Verdicts therefore do not depend on z3's seq solver finishing just inside its budget.
     is_cover = '(check-sat)' in smt2 and job[4] if len(job) > 4 else False
+    late = len(job) > 5 and time.time() > job[5]          # the batch's wall-clock deadline has passed
     stages = [('z3', min(timeout_ms, 3000))]
+    if late:
+        timeout_ms, use_cvc5 = 3000, False
     if use_cvc5 and not is_cover:
         # the Debian z3 4.8.12 binary instantiates quantifiers over nested arrays far more eagerly than 5.1:
         # try it first on quantified goals
@@ -185,13 +211,28 @@ def _work(job):
 _POOL = None
 
 
+def _solver_worker_init():
+    """Address-space cap of a solver worker: 6 GiB above what the forked process already maps."""
+    import resource
+    try:
+        with open('/proc/self/statm') as f:
+            current = int(f.read().split()[0]) * resource.getpagesize()
+        cap = current + (6 << 30)
+        soft, hard = resource.getrlimit(resource.RLIMIT_AS)
+        if hard != resource.RLIM_INFINITY:
+            cap = min(cap, hard)
+        resource.setrlimit(resource.RLIMIT_AS, (cap, hard))
+    except (OSError, ValueError):
+        pass
+
+
 def _pool(n: int):
     """One worker pool per process, forked once (early, while the parent is still small): the jobs are SMT-LIB
     texts, so the workers need nothing from the parent's later state."""
     global _POOL
     if _POOL is None:
         import atexit
-        _POOL = mp.get_context('fork').Pool(n)
+        _POOL = mp.get_context('fork').Pool(n, initializer=_solver_worker_init)
         atexit.register(_close_pool)
     return _POOL
 
@@ -221,7 +262,11 @@ def discharge(obligations: list, timeout_ms: int = 10000, jobs: int = 0, use_cvc
     if len(jobs_list) <= 1 or njobs == 1:
         outs = [_work(j) for j in jobs_list]
     else:
-        outs = _pool(njobs).map(_work, jobs_list, chunksize=1)
+        # every job carries the wall-clock deadline of the batch: a run in which (after a change to the code under
+        # contract) most goals time out in every stage must not take hours - jobs started after the deadline only get
+        # the short first stage
+        deadline = time.time() + max(150.0, 3.0 * timeout_ms / 1000.0)
+        outs = _pool(njobs).map(_work, [j + (deadline,) for j in jobs_list], chunksize=1)
     for idx, st, model, reason, backend, dt in outs:
         ob = obligations[idx]
         if ob.kind == 'cover':
